@@ -14,6 +14,7 @@
 
 extern "C" {
 #include "ares_verif.h"
+int sim_reinit_pending(ares_channel_t *channel);
 }
 
 ares_channel_t *g_channel = nullptr;
@@ -120,10 +121,16 @@ static void legacy_cb(void *arg, int status, int timeouts, unsigned char *abuf, 
   cb_end(tok);
 }
 
+// marker carried by an address built by build_reply (192.x.y.z / 2001::x:y:z); other addresses
+// (hosts file, literals, loopback) give negative codes: -(last byte) - 1000
 static int addr_marker(int family, const void *addr) {
   const unsigned char *b = (const unsigned char *)addr;
-  if (family == AF_INET) return (b[0] << 24) | (b[1] << 16) | (b[2] << 8) | b[3];
-  return (b[0] << 24) | (b[13] << 16) | (b[14] << 8) | b[15];
+  if (family == AF_INET) {
+    if (b[0] == 192) return (b[1] << 16) | (b[2] << 8) | b[3];
+    return -1000 - b[3];
+  }
+  if (b[0] == 0x20 && b[1] == 0x01) return (b[13] << 16) | (b[14] << 8) | b[15];
+  return -1000 - b[15];
 }
 
 static void addrinfo_cb(void *arg, int status, int timeouts, struct ares_addrinfo *ai) {
@@ -332,8 +339,11 @@ void exec_step(const J &st, int incb) {
 
   if (op == "query" || op == "send" || op == "search" || op == "lquery" || op == "lsearch" || op == "lsend") {
     Tok *tok = new_tok(st, op.c_str());
-    ev("{\"e\":\"call\",\"api\":\"%s\",\"t\":%d,\"name\":%s,\"qt\":%d,\"now\":%lld,\"depth\":%d,\"incb\":%d}", op.c_str(), tok->id,
-       jstr(name).c_str(), (int)qt, g_now_ms, g_depth, incb);
+    std::string kname = name;
+    for (auto &c : kname) c = (char)tolower((unsigned char)c);
+    if (!kname.empty() && kname.back() == '.') kname.pop_back();
+    ev("{\"e\":\"call\",\"api\":\"%s\",\"t\":%d,\"name\":%s,\"kname\":%s,\"qt\":%d,\"rd\":%d,\"cd\":%d,\"now\":%lld,\"depth\":%d,\"incb\":%d}", op.c_str(), tok->id,
+       jstr(name).c_str(), jstr(kname).c_str(), (int)qt, (int)(st["nord"].num() ? 0 : 1), (int)(st["cd"].num() ? 1 : 0), g_now_ms, g_depth, incb);
     g_depth++;
     int rc = -1;
     unsigned short qid = 0;
@@ -533,6 +543,8 @@ void exec_step(const J &st, int incb) {
     ev("{\"e\":\"call\",\"api\":\"reinit\",\"now\":%lld,\"depth\":%d,\"incb\":%d}", g_now_ms, g_depth, incb);
     g_depth++;
     int rc = ares_reinit(g_channel);
+    // ares_reinit() reloads in a background thread: wait until it is done so that the history stays sequential
+    for (int i = 0; i < 5000 && sim_reinit_pending(g_channel); i++) usleep(1000);
     g_depth--;
     ev("{\"e\":\"ret\",\"api\":\"reinit\",\"rc\":\"%s\",\"depth\":%d}", stname(rc), g_depth);
   } else {
